@@ -460,17 +460,165 @@ def translate_layout_blocks(repo):
     return out
 
 
+# =====================================================================================================================
+# part 3: the buffer-rotation state machine of Grid (grid.py: setLayout / saveGridValues / freeGridSave / restoreGridValues)
+
+def translate_grid(repo):
+    """Every statement of the four methods must match one of the shapes below; the statements are emitted IN SOURCE ORDER as
+    successive updates of a state record, so that a reordering or a changed operand changes the generated function."""
+    import re
+    rel = 'pygyro/model/grid.py'
+    src = open(os.path.join(repo, rel)).read()
+    tree = ast.parse(src)
+
+    def refuse(node, why):
+        raise Refuse(node, why, rel)
+
+    cls = [n for n in tree.body if isinstance(n, ast.ClassDef) and n.name == 'Grid']
+    if len(cls) != 1:
+        refuse(tree, 'class Grid not found')
+    meth = {n.name: n for n in cls[0].body if isinstance(n, ast.FunctionDef)}
+    for m in ('__init__', 'setLayout', 'saveGridValues', 'freeGridSave', 'restoreGridValues', 'getAllData'):
+        if m not in meth:
+            refuse(cls[0], 'method %s not found' % m)
+    IDX = {'data': 'dataIdx', 'buff': 'buffIdx', 'save': 'saveIdx'}
+    TR = re.compile(r'^self\._layout_manager\.transpose\(self\._my_data\[self\._(data|buff|save)Idx\], '
+                    r'self\._my_data\[self\._(data|buff|save)Idx\], self\._current_layout_name, new_layout'
+                    r'(?:, self\._my_data\[self\._(data|buff|save)Idx\])?\)$')
+    VIEW = 'self._f = np.split(self._my_data[self._dataIdx], [self._layout.size])[0].reshape(self._layout.shape)'
+
+    def stmt(s, lines, ind):
+        pad = '  ' * ind
+        txt = ast.unparse(s)
+        if isinstance(s, ast.Expr) and isinstance(s.value, ast.Constant) and isinstance(s.value.value, str):
+            return
+        if txt == 'assert self.hasSaveMemory':
+            lines.append(pad + 'if !s.g.hasSave then none else')
+            return
+        if txt == 'assert self.notSaved':
+            lines.append(pad + 'if !s.g.notSaved then none else')
+            return
+        if txt == 'assert not self.notSaved':
+            lines.append(pad + 'if s.g.notSaved then none else')
+            return
+        m = TR.match(txt)
+        if m:
+            a, b, c = m.groups()
+            buf = '(some s.g.%s)' % IDX[c] if c else 'none'
+            lines.append(pad + 'let s : St := { s with g := { s.g with cells := transposeCells s.g.cells s.g.%s s.g.%s %s l } }'
+                         % (IDX[a], IDX[b], buf))
+            return
+        if isinstance(s, ast.Assign) and len(s.targets) == 1 and isinstance(s.targets[0], ast.Tuple):
+            m2 = re.match(r'^self\._(data|buff|save)Idx, self\._(data|buff|save)Idx = \(self\._(data|buff|save)Idx, self\._(data|buff|save)Idx\)$', txt)
+            if not m2:
+                refuse(s, 'tuple assignment `%s`' % txt)
+            t1, t2, v1, v2 = m2.groups()
+            if t1 == t2:
+                refuse(s, 'tuple assignment to the same name twice')
+            lines.append(pad + 'let s : St := { s with g := { s.g with %s := s.g.%s, %s := s.g.%s } }' % (IDX[t1], IDX[v1], IDX[t2], IDX[v2]))
+            return
+        if txt == 'self._layout = self._layout_manager.getLayout(new_layout)':
+            lines.append(pad + 'let s : St := { s with layoutName := l }')
+            return
+        if txt == 'self._layout = self._layout_manager.getLayout(self._current_layout_name)':
+            lines.append(pad + 'let s : St := { s with layoutName := s.g.current }')
+            return
+        if txt == VIEW:
+            lines.append(pad + 'let s : St := { s with fBuf := s.g.dataIdx, fLayout := s.layoutName }')
+            return
+        if txt == 'self._current_layout_name = new_layout':
+            lines.append(pad + 'let s : St := { s with g := { s.g with current := l } }')
+            return
+        if txt == 'self._current_layout_name = self._savedLayout':
+            lines.append(pad + 'let s : St := { s with g := { s.g with current := s.g.savedLayout } }')
+            return
+        if txt == 'self._my_data[self._saveIdx][:self._layout.size] = self._f[:].flatten()':
+            # the first `_layout.size` entries of the save block receive the values seen through `_f`; if `_f` does not view
+            # the layout `_layout` names, the sizes differ and the copy raises or is partial: modelled as garbage
+            lines.append(pad + 'let s : St := { s with g := { s.g with cells := s.g.cells.set s.g.saveIdx '
+                               '(if s.fLayout = s.layoutName then viewCell s else .garbage) } }')
+            return
+        if txt == 'self._savedLayout = self._current_layout_name':
+            lines.append(pad + 'let s : St := { s with g := { s.g with savedLayout := s.g.current } }')
+            return
+        if txt in ('self.notSaved = True', 'self.notSaved = False'):
+            lines.append(pad + 'let s : St := { s with g := { s.g with notSaved := %s } }' % ('true' if txt.endswith('True') else 'false'))
+            return
+        if isinstance(s, ast.If):
+            if ast.unparse(s.test) != 'self.hasSaveMemory and self.notSaved':
+                refuse(s, 'condition `%s`' % ast.unparse(s.test))
+            lines.append(pad + 'let s : St := if s.g.hasSave && s.g.notSaved then')
+            sub = []
+            for t in s.body:
+                stmt(t, sub, ind + 2)
+            lines.extend(sub)
+            lines.append(pad + '    s')
+            lines.append(pad + '  else')
+            sub = []
+            for t in s.orelse:
+                stmt(t, sub, ind + 2)
+            lines.extend(sub)
+            lines.append(pad + '    s')
+            return
+        refuse(s, 'statement `%s` is outside the recognised shapes' % txt[:120])
+
+    def method(name):
+        lines = []
+        for t in meth[name].body:
+            stmt(t, lines, 1)
+        return '\n'.join(lines + ['  some s'])
+
+    # __init__: the index triple, the flag, the view
+    init_txt = [ast.unparse(t) for t in meth['__init__'].body]
+    for need in ('self._dataIdx = 0', 'self._buffIdx = 1', 'self._saveIdx = 2', 'self._current_layout_name = chosenLayout',
+                 'self._layout = layouts.getLayout(chosenLayout)', VIEW):
+        if need not in init_txt:
+            refuse(meth['__init__'], '__init__ no longer contains `%s`' % need)
+    if init_txt.index(VIEW) < max(init_txt.index('self._dataIdx = 0'), init_txt.index('self._layout = layouts.getLayout(chosenLayout)')):
+        refuse(meth['__init__'], 'the view is taken before the index / layout are set')
+    has = [t for t in meth['__init__'].body if isinstance(t, ast.If) and ast.unparse(t.test) == 'self.hasSaveMemory']
+    if len(has) != 1 or 'self.notSaved = True' not in [ast.unparse(x) for x in has[0].body]:
+        refuse(meth['__init__'], 'the `if self.hasSaveMemory:` block that sets notSaved = True was not found')
+    nb = [len(x.value.elts) for blk in (has[0].body, has[0].orelse) for x in blk
+          if isinstance(x, ast.Assign) and ast.unparse(x.targets[0]) == 'self._my_data' and isinstance(x.value, ast.List)]
+    if nb != [3, 2]:
+        refuse(meth['__init__'], 'expected 3 memory blocks with save memory and 2 without, found %s' % nb)
+    if [ast.unparse(t) for t in meth['getAllData'].body if not (isinstance(t, ast.Expr) and isinstance(t.value, ast.Constant))] != ['return self._f']:
+        refuse(meth['getAllData'], 'getAllData no longer returns self._f')
+    out = ('/-\nGENERATED by harness/translate_pure.py from %s (sha256 %s) — do not edit.\n'
+           'The statements of Grid.setLayout / saveGridValues / freeGridSave / restoreGridValues in SOURCE ORDER, as successive updates of\n'
+           'the state `St` = the index/flag state `GState` of Model/GridSM.lean + which layout object `self._layout` is (`layoutName`) and which\n'
+           'block / layout the view `self._f` shows (`fBuf`, `fLayout`).  `assert` = refusal (`none`).  The layout manager enters through\n'
+           'its contract `transposeCells`.  Core Lean only.\n-/\nimport PygyroVerif.Model.GridSM\n\n'
+           'namespace PygyroVerif.Gen.Grid\nopen PygyroVerif.GridSM\n\n'
+           'structure St where\n  g : GState\n  layoutName : Nat\n  fBuf : Nat\n  fLayout : Nat\nderiving Repr, DecidableEq\n\n'
+           '/-- what is seen through `self._f`: the block it views, if that block holds a field in the layout whose shape the view uses -/\n'
+           'def viewCell (s : St) : Cell :=\n  match s.g.cells.getD s.fBuf .garbage with\n  | .holds f lay => if lay = s.fLayout then .holds f lay else .garbage\n  | .garbage => .garbage\n\n'
+           '/-- `Grid.__init__` (%s:%d) followed by the user filling the grid with field `f` -/\n'
+           'def init (hasSave : Bool) (layout f : Nat) : St :=\n  { g := GridSM.init hasSave layout f, layoutName := layout, fBuf := 0, fLayout := layout }\n\n'
+           % (rel, hashlib.sha256(src.encode()).hexdigest()[:16], rel, meth['__init__'].lineno))
+    out += '/-- `Grid.setLayout(new_layout)` (%s:%d) -/\ndef setLayout (s : St) (l : Nat) : Option St :=\n%s\n\n' % (rel, meth['setLayout'].lineno, method('setLayout'))
+    for name in ('saveGridValues', 'freeGridSave', 'restoreGridValues'):
+        out += '/-- `Grid.%s()` (%s:%d) -/\ndef %s (s : St) : Option St :=\n%s\n\n' % (name, rel, meth[name].lineno, name, method(name))
+    out += ('/-- the user overwrites the values through `getAllData()` (= `self._f`) -/\n'
+            'def write (s : St) (v : Nat) : Option St :=\n  some { s with g := { s.g with cells := s.g.cells.set s.fBuf (.holds v s.fLayout) } }\n\n'
+            'def step (s : St) : Op → Option St\n  | .setLayout l => setLayout s l\n  | .write v => write s v\n  | .save => saveGridValues s\n'
+            '  | .free => freeGridSave s\n  | .restore => restoreGridValues s\n\nend PygyroVerif.Gen.Grid\n')
+    return out
+
+
 def main():
     ap = argparse.ArgumentParser()
     ap.add_argument('--repo', default=os.environ.get('PYGYRO_REPO', '/repo'))
     ap.add_argument('--out', default=DEFAULT_OUT)
     ap.add_argument('--quiet', action='store_true')
-    ap.add_argument('--only', choices=['procgrid', 'blocks'], help='translate one target only')
+    ap.add_argument('--only', choices=['procgrid', 'blocks', 'grid'], help='translate one target only')
     a = ap.parse_args()
     os.makedirs(a.out, exist_ok=True)
     status = 0
     for key, fname, fn in (('procgrid', 'ProcGridGen.lean', lambda: translate_process_grid(a.repo)[0]),
-                           ('blocks', 'BlocksGen.lean', lambda: translate_layout_blocks(a.repo))):
+                           ('blocks', 'BlocksGen.lean', lambda: translate_layout_blocks(a.repo)),
+                           ('grid', 'GridGen.lean', lambda: translate_grid(a.repo))):
         if a.only and a.only != key:
             continue
         path = os.path.join(a.out, fname)
